@@ -2,6 +2,7 @@
 SPECIFICATION Spec
 CONSTANTS
   Threads = {1, 2}
+  Owners = {1, 2}
   MaxClones = 1
   MaxReads = 1
   FreeOn = 2
